@@ -227,6 +227,11 @@ fn run_check(id: &str, tier: Tier) -> i32 {
             let (txs, rows) = c10::run_laps(&mut c);
             c.cov("lap_transactions", serde_json::json!(txs));
             c.cov("laps", serde_json::json!(rows));
+            // threaded supplement: writers that begin while another writer's transaction is open
+            c.assumptions.push("threaded supplement (coverage.threaded.*): two writer threads and a reader thread under the controlled scheduler on a base with more than 40 free pages, all schedules up to two (thorough: three) preemptions; the page high-water mark must not move".into());
+            c.cov_prefix = "threaded.".into();
+            schedx::run(&mut c, "C10", schedx::c10_thread_case_infos(tier), &["free"]);
+            c.cov_prefix.clear();
             c.finish()
         }
         "C16" => {
